@@ -86,3 +86,25 @@ def fileName (k : Consts) (base : List Nat) (du : Nat) (typ intent : List Nat) (
         .ok (head ++ [95] ++ t ++ sV ++ pad3 version ++ sFits)
 
 end IrfName
+
+/-! ### the string operations the generated name composition (`Gen/IrfNameGen.lean`, translator/strtrans.py) is written in -/
+namespace Str
+
+/-- `s.replace(old, new)` -/
+def replace (s old new : List Nat) : List Nat := IrfName.replaceAll s old new
+/-- `s.strip('_')` -/
+def stripUnderscore (s : List Nat) : List Nat := IrfName.stripUnderscore s
+/-- `s.endswith(suf)` -/
+def endswith (s suf : List Nat) : Bool := IrfName.endsWith s suf
+
+def digits : Nat → Nat → List Nat
+  | 0, _ => []
+  | fuel + 1, n => if n < 10 then [48 + n] else digits fuel (n / 10) ++ [48 + n % 10]
+
+/-- `'%d' % n` for a non-negative integer -/
+def dec (n : Nat) : List Nat := digits (n + 1) n
+
+/-- `'%0wd' % n` for a non-negative integer: zero-padded to at least `w` characters -/
+def decPad (w n : Nat) : List Nat := List.replicate (w - (dec n).length) 48 ++ dec n
+
+end Str
